@@ -37,6 +37,17 @@ CLAIMS = {
             "verifier unlinks only what a durable intent names and only after verify_one, the orphan scan skips roll-ups and "
             "only renames, and scan cursors own the VersionRef pinning their files.  Does not decide that reference counts are "
             "numerically right for every history.", "§4 C08"),
+    "C04": ("equality-gate table (GUARDED fail-closed Setsum comparisons), ORDER of Edit::info I/O/D before apply, accumulator MUSTPASS, loop-body MUSTPASS for GC discard",
+            "Decides presence and placement of every balance gate and accumulator: compaction commit only on input == output + "
+            "discard, I/O/D on every store transaction, tree-vs-manifest comparison on open and before install, builders "
+            "accumulate every entry and seal writes that digest, GC adds each dropped entry to the discard it reports, the "
+            "verifier's gates exist, fail closed and dominate its verdict.  Does not decide that the numbers are right for "
+            "every history or that every tamper is rejected.", "§4 C04"),
+    "C05": ("who-may-call + GUARDED (GC only under top_level), loop-body MUSTPASS (every entry read is written; every input/output wired), ORIGIN",
+            "Decides rewrite completeness and GC confinement: GC is reachable only on the top_level edge and only with the "
+            "configured policy; a plain compaction writes every entry it reads and leaves its loop only at end of input; "
+            "inputs are removed/opened/merged/summed and outputs added/linked/recorded/summed; GC's drops equal its discard.  "
+            "Does not decide multiset equality of contents or GC policy semantics.", "§4 C05"),
 }
 
 NA_DEFAULT = "check not built yet (DESIGN.md §8 build order); will be claimed once its rule set is armed"
